@@ -97,11 +97,14 @@ def gen_params(rng, tier):
         if mode == "alias":
             if len(sl) < 1:
                 continue
-            dst = rng.choice(sl)
+            # flow positions (a nanflow next to a never-filled template) are as likely as all the others together
+            flows = [s for s in sl if s[-1][0] in ("nanflow", "underflow", "overflow")]
+            dst = rng.choice(flows) if flows and rng.random() < 0.4 else rng.choice(sl)
             # source: another slot (sibling/cousin), or an ancestor position (own descendant)
             cands = [s for s in sl if s != dst and s[:len(dst)] != dst]
             anc = [dst[:i] for i in range(0, len(dst))]
-            src = rng.choice(cands + anc) if (cands or anc) else None
+            fl2 = [s for s in cands if s[-1][0] in ("nanflow", "underflow", "overflow")]
+            src = (rng.choice(fl2) if fl2 and rng.random() < 0.4 else rng.choice(cands + anc)) if (cands or anc) else None
             if src is None:
                 continue
             kind = "ancestor" if src in anc else "other"
